@@ -676,12 +676,16 @@ impl Ipv6Extensions {
 
         // check if hop by hop header should be written first
         if IPV6_HOP_BY_HOP == next_header {
-            let header = &self.hop_by_hop_options.as_ref().unwrap();
-            writer
-                .write_all(&header.to_bytes())
-                .map_err(WriteError::Io)?;
-            next_header = header.next_header;
-            needs_write.hop_by_hop_options = false;
+            // the ip number for hop by hop is 0 and could be used as
+            // a placeholder, so it is not an error if no hop by hop header
+            // is present (same behavior as in "next_header")
+            if let Some(header) = self.hop_by_hop_options.as_ref() {
+                writer
+                    .write_all(&header.to_bytes())
+                    .map_err(WriteError::Io)?;
+                next_header = header.next_header;
+                needs_write.hop_by_hop_options = false;
+            }
         }
 
         loop {
